@@ -36,6 +36,12 @@ structure Globals where
   redactedFieldsRegexp : Option (Str → Bool)
   Encrypt : Bytes → Option Bytes → Option Bytes        -- `none` = the error return
   b64 : Bytes → Str
+  /-- the `--redactFieldNames` namespace prefixes -/
+  eagerRedactionPaths : List Str
+  /-- `UnmarshalOrdered` (the JSON reader; not translated): `none` = the error return -/
+  UnmarshalOrdered : Bytes → Option (List (Str × J))
+  /-- `redactFieldNamesFromPlanSummary` (regular-expression callback; not translated) -/
+  redactFieldNamesFromPlanSummary : Str → Str
   /-- the stage walker `redactPipelineStage` (not translated): a parameter of the translated dispatch functions -/
   redactPipelineStage : J → Bool → List Str → Bool → Option J
 
@@ -106,6 +112,15 @@ def errPair (r : Option Bytes) : Bytes × Bool :=
   match r with
   | some x => (x, false)
   | none => ([], true)
+
+/-- `m, err := f()` for a call returning a document and an error -/
+def errPairObj (r : Option (List (Str × J))) : List (Str × J) × Bool :=
+  match r with
+  | some x => (x, false)
+  | none => ([], true)
+
+/-- `strings.HasPrefix(s, p)` -/
+def hasPrefix (s p : Str) : Bool := p.isPrefixOf s
 
 /-- `m, ok := x.(*OrderedMap)` on a JSON value -/
 def asObj (v : J) : List (Str × J) × Bool :=
